@@ -2,7 +2,10 @@
 
 package dv
 
-import "github.com/named-data/ndnd/dv/table"
+import (
+	"github.com/named-data/ndnd/dv/table"
+	"github.com/named-data/ndnd/std/ndn"
+)
 
 // Test-only access for the /verif correspondence harness (property C18).
 // A Router is built with the exported NewRouter around a harness ndn.Engine;
@@ -25,4 +28,10 @@ func (dv *Router) VerifAdvertSeq() uint64 {
 	dv.mutex.Lock()
 	defer dv.mutex.Unlock()
 	return dv.advertSyncSeq
+}
+
+// VerifAdvertDataOnInterest delivers an Advertisement Data Interest (as the engine does for the
+// advertisement data prefix): the router answers with its current advertisement.
+func (dv *Router) VerifAdvertDataOnInterest(args ndn.InterestHandlerArgs) {
+	dv.advertDataOnInterest(args)
 }
